@@ -730,3 +730,72 @@ Lemma atom_order_current_refuted_lemma :
   shrake_rupley true (sched_serial 1) order_witness = Ok [Some [289; 144]] /\
   shrake_rupley true (sched_serial 1) (as_found_view (walk_order 2 [1%nat; 0%nat]) order_witness) = Ok [Some [144; 289]].
 Proof. split; vm_compute; reflexivity. Qed.
+
+(* ------------------------------------------------------------------ atom_indices as passed (two readings) *)
+Lemma raw_mask_valid : forall n l, Forall (fun i => 0 <= i) l ->
+  raw_mask n (RawInts l) = mask_of n (Some (map Z.to_nat l)).
+Proof.
+  intros n l H. unfold raw_mask, mask_of. apply map_ext. intros i. unfold mem_nat.
+  induction H as [|x r Hx Hr IH]; [reflexivity|]. cbn [existsb map]. rewrite IH. f_equal.
+  destruct (Z.eqb_spec (Z.of_nat i) x) as [E|E]; destruct (Nat.eqb_spec i (Z.to_nat x)) as [F|F]; auto; exfalso; lia.
+Qed.
+
+Lemma raw_overlay_valid : forall n l, Forall (fun i => 0 <= i < Z.of_nat n) l ->
+  raw_overlay n (RawInts l) = Some (map Z.to_nat l) /\ forallb (fun i => Nat.ltb i n) (map Z.to_nat l) = true.
+Proof.
+  intros n l H. unfold raw_overlay.
+  assert (A : forallb (fun i => (- Z.of_nat n <=? i) && (i <? Z.of_nat n)) l = true).
+  { apply forallb_forall. intros x Hx. rewrite Forall_forall in H. specialize (H x Hx).
+    apply andb_true_intro. split; [apply Z.leb_le|apply Z.ltb_lt]; lia. }
+  rewrite A. split.
+  - f_equal. apply map_ext_in. intros x Hx. rewrite Forall_forall in H. specialize (H x Hx).
+    destruct (Z.ltb_spec x 0); [lia|reflexivity].
+  - apply forallb_forall. intros x Hx. apply in_map_iff in Hx. destruct Hx as [y [<- Hy]].
+    rewrite Forall_forall in H. specialize (H y Hy). apply Nat.ltb_lt. lia.
+Qed.
+
+(* for non-negative integer indices in range the two readings coincide: the as-found code computes the specified call *)
+Lemma raw_valid_harmless : forall sched c l,
+  Forall (fun i => 0 <= i < Z.of_nat (length (c_elems c))) l ->
+  shrake_rupley_raw_cur sched c (RawInts l) = shrake_rupley true sched (set_sel (Some (map Z.to_nat l)) c) /\
+  shrake_rupley_raw sched c (RawInts l) = shrake_rupley true sched (set_sel (Some (map Z.to_nat l)) c).
+Proof.
+  intros sched c l H. destruct (raw_overlay_valid _ l H) as [Ho Hb].
+  assert (Hm : raw_mask (length (c_elems c)) (RawInts l) = mask_of (length (c_elems c)) (Some (map Z.to_nat l))).
+  { apply raw_mask_valid. eapply Forall_impl; [|exact H]. cbn. intros; lia. }
+  unfold shrake_rupley_raw_cur, shrake_rupley_raw, shrake_rupley, mode_refused. cbn [set_sel c_mode c_elems c_resid c_sel c_tbl c_change c_probe c_frames c_tiny2 c_K c_M c_pts c_nres].
+  rewrite Ho, Hb, Hm. cbn [negb].
+  destruct (match c_mode c with AtomMode => false | ResidueMode => _ end); [split; reflexivity|].
+  split; reflexivity.
+Qed.
+
+(* three atoms far apart, one sphere point, atom_indices = [-1]: numpy reads "the last atom", the mask reads "nobody" *)
+Definition rawsel_witness : call :=
+  {| c_K := 1; c_M := 1; c_tiny2 := 1; c_pts := [(1, 0, 0)]; c_tbl := [("C"%string, 17)];
+     c_change := []; c_probe := 0; c_elems := ["C"%string; "C"%string; "C"%string]; c_resid := [0%nat; 0%nat; 1%nat]; c_nres := 2;
+     c_mode := AtomMode; c_sel := None; c_frames := [[(0, 0, 0); (1000, 0, 0); (2000, 0, 0)]] |}.
+
+Lemma raw_negative_refuted_lemma :
+  shrake_rupley_raw_cur (sched_serial 1) rawsel_witness (RawInts [-1]) = Ok [Some [-1; -1; 0]] /\
+  shrake_rupley_raw (sched_serial 1) rawsel_witness (RawInts [-1]) = Ok [Some [-1; -1; 289]] /\
+  shrake_rupley true (sched_serial 1) (set_sel (Some [2%nat]) rawsel_witness) = Ok [Some [-1; -1; 289]].
+Proof. repeat split; vm_compute; reflexivity. Qed.
+
+(* a boolean mask [True; False; True]: the mask reads "atoms 0 and 1" (False == 0, True == 1), numpy reads "atoms 0 and 2":
+   atom 1 is computed on top of the -1 it was initialised with, atom 2 is reported as 0 *)
+Lemma raw_boolean_refuted_lemma :
+  shrake_rupley_raw_cur (sched_serial 1) rawsel_witness (RawBools [true; false; true]) = Ok [Some [289; 288; 0]] /\
+  shrake_rupley_raw (sched_serial 1) rawsel_witness (RawBools [true; false; true]) = Ok [Some [289; -1; 289]].
+Proof. repeat split; vm_compute; reflexivity. Qed.
+
+Lemma raw_out_of_range_refused : forall sched c l, mode_refused c = false ->
+  Exists (fun i => i < - Z.of_nat (length (c_elems c)) \/ Z.of_nat (length (c_elems c)) <= i) l ->
+  shrake_rupley_raw_cur sched c (RawInts l) = ErrIndex /\ shrake_rupley_raw sched c (RawInts l) = ErrIndex.
+Proof.
+  intros sched c l Hm H. unfold shrake_rupley_raw_cur, shrake_rupley_raw. rewrite Hm.
+  assert (A : forallb (fun i => (- Z.of_nat (length (c_elems c)) <=? i) && (i <? Z.of_nat (length (c_elems c)))) l = false).
+  { apply Exists_exists in H. destruct H as [x [Hx Hb]].
+    destruct (forallb _ l) eqn:E; [|reflexivity]. rewrite forallb_forall in E. specialize (E x Hx).
+    apply andb_prop in E. destruct E as [E1 E2]. apply Z.leb_le in E1. apply Z.ltb_lt in E2. lia. }
+  unfold raw_overlay. rewrite A. split; reflexivity.
+Qed.
